@@ -51,7 +51,7 @@ func checkC05(w *World, r *Report) {
 	c05ConfigProvenance(w, r)
 	c05SharedSecret(w, r)
 	c05FreshConfig(w, r, "R05.7")
-	c05NoPlainAdmission(w, r)
+	c05NoPlainAdmission(w, r, "R05.8", "R05.11")
 	c05DialServerName(w, r)
 	c05RoleConfig(w, r)
 }
@@ -984,13 +984,13 @@ func c05FreshConfig(w *World, r *Report, rule string) {
 // c05NoPlainAdmission: R05.8 — requireClientCert is enforced by crypto/tls during a TLS handshake only.
 // On a carrier that is not already TLS the session handshake must therefore refuse to return the plain
 // connection when the manager's configuration demands client certificates.
-func c05NoPlainAdmission(w *World, r *Report) {
+func c05NoPlainAdmission(w *World, r *Report, rule8, rule11 string) {
 	key := "method:(*socketace.ServerConnection).upgrade|plain-admission"
 	scNamed := w.Named("internal/socketace", "ServerConnection")
 	newSC := w.SSAFunc(w.Func("internal/socketace", "NewServerConnection"))
 	clientAuth := tlsConfigField(w, "ClientAuth")
 	if scNamed == nil || newSC == nil || clientAuth == nil {
-		r.Undecided("R05.8", key, "-", "anchor unresolved: ServerConnection / NewServerConnection / tls.Config.ClientAuth")
+		r.Undecided(rule8, key, "-", "anchor unresolved: ServerConnection / NewServerConnection / tls.Config.ClientAuth")
 		return
 	}
 	// the function of the handshake cone that returns the established connection: (conn, error) results, returns a tls.Server-derived value somewhere
@@ -1006,7 +1006,7 @@ func c05NoPlainAdmission(w *World, r *Report) {
 		}
 	}
 	if up == nil {
-		r.Undecided("R05.8", key, "-", "the server's StartTLS step (tls.Server in NewServerConnection's cone) was not found")
+		r.Undecided(rule8, key, "-", "the server's StartTLS step (tls.Server in NewServerConnection's cone) was not found")
 		return
 	}
 	// flags of ServerConnection derived from ClientAuth
@@ -1076,7 +1076,7 @@ func c05NoPlainAdmission(w *World, r *Report) {
 			}
 		})
 	}
-	c05RequirementSurvivesConfigError(w, r, newSC, reqFields)
+	c05RequirementSurvivesConfigError(w, r, rule11, newSC, reqFields)
 	secureF := fieldOf(scNamed, "secure")
 	factsJustify := func(facts map[ssa.Value]bool) bool {
 		for v, t := range facts {
@@ -1172,10 +1172,10 @@ func c05NoPlainAdmission(w *World, r *Report) {
 		}
 	})
 	if !okp {
-		r.Undecided("R05.8", key, w.Pos(up.Pos()), "path budget exceeded")
+		r.Undecided(rule8, key, w.Pos(up.Pos()), "path budget exceeded")
 		return
 	}
-	r.Check(bad == "" && nplain+ntls > 0, "R05.8", key, w.Pos(up.Pos()), fmt.Sprintf("%d plain and %d TLS success return(s); every plain one is on a path where the requirement flag is false or the carrier already secure", nplain, ntls), bad)
+	r.Check(bad == "" && nplain+ntls > 0, rule8, key, w.Pos(up.Pos()), fmt.Sprintf("%d plain and %d TLS success return(s); every plain one is on a path where the requirement flag is false or the carrier already secure", nplain, ntls), bad)
 }
 
 func fieldOwnerNamed(n *types.Named, fv *types.Var) bool {
@@ -1348,8 +1348,7 @@ func c05RoleConfig(w *World, r *Report) {
 // and (itself or through helpers) stores such a flag, each path from that request to a successful return
 // must store the flag, and not the constant false: otherwise a manager whose key material cannot be
 // loaded (file rotated away, unreadable) turns requireClientCert off and clear-text sessions are admitted.
-func c05RequirementSurvivesConfigError(w *World, r *Report, newSC *ssa.Function, reqFields map[*types.Var]bool) {
-	rule := "R05.11"
+func c05RequirementSurvivesConfigError(w *World, r *Report, rule string, newSC *ssa.Function, reqFields map[*types.Var]bool) {
 	if len(reqFields) == 0 {
 		r.Hold(rule, "flags:ClientAuth-derived", "-", "no requirement flag is kept (R05.8 decides whether the configuration is consulted directly)")
 		return
